@@ -66,7 +66,7 @@ Lemma inval_nth_inv i ps l n r :
              r_cur r = r_cur r0 && negb (mem (i + n) ps).
 Proof.
   rewrite inval_from_nth. destruct (nth_error l n) as [r0|]; simpl; [|discriminate].
-  intros [= <-]. exists r0. destruct (mem (i + n) ps); simpl; rewrite ?andb_true_r, ?andb_false_r; tauto.
+  intros [= <-]. exists r0. destruct (mem (i + n) ps); simpl; rewrite ?andb_true_r, ?andb_false_r; repeat split; reflexivity.
 Qed.
 
 Lemma cb_rows1_nth s cs ps i r0 :
@@ -97,7 +97,7 @@ Proof.
   - simpl. rewrite inval_from_length. unfold cb_rows1. rewrite app_length. lia.
   - intros i r H. simpl. rewrite inval_from_nth. unfold cb_rows1.
     rewrite nth_error_app1 by (apply nth_error_Some; congruence). rewrite H. simpl.
-    eexists. split; [reflexivity|]. destruct (mem (0 + i) ps); simpl; tauto.
+    eexists. split; [reflexivity|]. destruct (mem _ ps); simpl; split; reflexivity.
 Qed.
 
 Lemma cb_state_LI s cs ps : LI s -> valid_parents s ps -> LI (cb_state s cs ps).
